@@ -860,7 +860,7 @@ def gen_three_notes(block):
         ("zero-middle", [(_a, _b), (_b, _b), (_b, _d)]),
         ("nested3", [(_a, _d), (_b, _c), (_b2, _b3)]),
     ]
-    descs = [(p, ch, tr) for p in (60, 61) for ch in (0, 1, 15) for tr in (0, 1)]
+    descs = [(p, ch, tr) for p in (60, 61) for ch in (0, 15) for tr in (0, 1)]
     i = 0
     for inp in ("perf", "ppart", "list"):
         for ds in itertools.product(descs, repeat=3):
@@ -1302,10 +1302,10 @@ def spaces(tier, seed):
         sp.append(Space("rt-two-notes", lambda: gen_two_notes(("perf", "ppart", "list"), MERGES, TWO_PATTERNS), True,
                         "2 notes, all ordered pairs of (pitch{60,61}, channel{0,1,15}, track{0,1}) x 10 interval patterns x "
                         "both list orders x 4 merge combinations x 3 input kinds"))
-    B3 = 48
+    B3 = 16
     sp.append(Space("rt-three-notes", lambda: gen_three_notes((seed % B3, B3) if quick else None), True,
                     ("block %d of %d (blocks of note-descriptor triples x input kind) of: " % (seed % B3, B3) if quick else "") +
-                    "3 notes, all triples of (pitch{60,61}, channel{0,1,15}, track{0,1}) x 4 interval patterns x all 6 list "
+                    "3 notes, all triples of (pitch{60,61}, channel{0,15}, track{0,1}) x 4 interval patterns x all 6 list "
                     "orders x 4 merge combinations x 3 input kinds"))
     BE = 4
     sp.append(Space("rt-events", lambda: gen_events((seed % BE, BE) if quick else None), True,
@@ -1341,6 +1341,10 @@ def spaces(tier, seed):
                     "seconds_to_midi_ticks (scalar and array) on the same ticks"))
     sp.append(Space("raw-keys", gen_raw_keys, True,
                     "nested notes for all ordered pairs of (channel{0,1,2,15}, pitch{0,1,126,127}); every channel x pitch{0,60,127} x velocity{1,127}"))
+    # files first, then the round trips from small to large (the runner keeps the first 20000 violations)
+    order = ["unit-time", "raw-keys", "raw-pairing", "raw-tempo", "rt-defaults", "rt-signatures", "rt-ranges",
+             "rt-multi-part", "rt-multi-part-3", "rt-two-notes", "rt-events", "rt-three-notes", "rt-one-note"]
+    sp.sort(key=lambda s: order.index(s.name))
     return sp
 
 
